@@ -25,4 +25,8 @@ LEVELS = {
   'text': 'Proof, full statement: for every stream, lifecycle table, window size and minimum delay the model of buffer_sort_messages outputs a permutation of its input (C10_perm); and whenever reception times are non-decreasing, indices increase and every message is delayed by at most the minimum buffering delay, the output is ordered by (calculated time, index) (C10_sorted, invariant over heap + emitted prefix, using only threshold >= minimum). Model tied to the real function by a differential run over thousands of generated streams incl. the sliding-window bookkeeping (compared up to the unspecified order of BinaryHeap ties).',
   'note': 'Trusted: Lean kernel; model tied by correspondence; BinaryHeap as a priority multiset; evmap read of a static table; mpsc channel as FIFO. windows_size_secs >= 1 (0 underflows in the code; outside the property range).',
  },
+ 'C20': {
+  'text': 'Proof (chain half, full statement): for every split of a byte string into volumes (empty ones anywhere) and every finite sequence of read(n)/seek(Start|Current|End), the answers of the SeekableChain model are legal answers of one Read+Seek object holding the concatenation (C20_chain_refines, simulation invariant over chain position and every underlying reader position; short reads legal, no early end-of-data). The model is compared value-for-value with SeekableChain over Cursors, and the contract is evaluated on the implementation answers. Extraction half (zip members, glob, confinement): see DESIGN.md - decided by the same check once its model is registered; until then only the chain half is claimed here.',
+  'note': 'Trusted: Lean kernel; model tied by the differential run; underlying readers modelled as Cursors (seek to any position, read returns the available bytes); u64 overflow of positions not modelled; zip crate, enclosed_name, glob and the file system for the extraction half.',
+ },
 }
